@@ -109,6 +109,34 @@ theorem generated_population_rows (vals : List (List Rat)) (hne : vals ≠ []) :
   refine ⟨?_, population_rows vals⟩
   rw [population_refines, if_neg hne, padRows_eq_stackRows]
 
+/-- **`extract_feature(populations).get(f)` as translated** (`PopulationsFeatureExtractor._get_impl` on the trees' value vectors): for EVERY
+collection with at least one tree in total — one population with one tree included, where `max(*xs)` raised (D31); populations of
+different sizes, empty populations, empty vectors — nothing raises and the answer has one block per population, every block has as many
+rows as the largest population, row `j` of block `i` is tree `j` of population `i`'s vector followed by zeros up to the longest vector of
+the whole collection, and the rows beyond a population's trees are zero -/
+theorem generated_populations_blocks (vals : List (List (List Rat))) (hne : vals.flatten ≠ []) :
+    ∃ out, populations_get_impl vals = some out ∧ out.length = vals.length ∧
+      ∀ i (hi : i < vals.length) (hi' : i < out.length),
+        out[i].length = maxLen vals ∧
+        (∀ j (hj : j < vals[i].length) (hj' : j < out[i].length),
+          out[i][j] = vals[i][j] ++ List.replicate (maxLen vals.flatten - vals[i][j].length) 0) ∧
+        (∀ j (hj' : j < out[i].length), vals[i].length ≤ j → out[i][j] = List.replicate (maxLen vals.flatten) 0) := by
+  refine ⟨_, by rw [populations_refines, if_neg hne], by simp, ?_⟩
+  intro i hi hi'
+  have hle : vals[i].length ≤ maxLen vals := maxLen_ge vals _ (List.getElem_mem hi)
+  simp only [List.getElem_map, blockOf]
+  refine ⟨by simp; omega, ?_, ?_⟩
+  · intro j hj hj'
+    rw [List.getElem_append_left (by simpa using hj)]
+    simp [padF]
+  · intro j hj' hge
+    rw [List.getElem_append_right (by simpa using hge)]
+    simp
+
+/-- with no tree at all the call raises (`max()` of an empty sequence) -/
+theorem generated_populations_empty (vals : List (List (List Rat))) (h : vals.flatten = []) : populations_get_impl vals = none := by
+  rw [populations_refines, if_pos h]
+
 -- non-vacuity (kernel-evaluated): the tree of `C10.exP` with root distances 0, 2, 3, 5, 1
 def exRad : List Rat := [0, 2, 3, 5, 1]
 example : (match sholl_init (Py.range 5) exP exRad none with
